@@ -91,6 +91,13 @@ def _once_per_motif(o, fn, loop, acc_name, key_vertex, what):
 def run(ctx):
     prog = ctx.prog
     ctx.trust("AutomatedEquation gives the motif's expectation (C15); networkx neighbors/edges/nodes; ast.literal_eval parses list/tuple literals")
+    # message passing keeps ONE evaluator for all sweeps and all phi: the evaluator's caches are part of C17's state discipline
+    try:
+        from . import c15
+        c15.run_cache_rules_for(ctx, "C17.8")
+    except Exception as e:      # the evaluator itself is C15's subject; if it is not analysable here, C15 says so
+        with ctx.obligation("C17.8", "the evaluator shared by all sweeps caches structure only") as o8:
+            o8.undecided(f"evaluator cache rules not applicable: {type(e).__name__}: {e}")
     ci = prog.cls("MessagePassing")
     th = prog.method(ci, "theoretical")
     ch = prog.method(ci, "calculate_H_tau")
